@@ -8,6 +8,8 @@ host_callback() in /repo/src/lib/ares_getaddrinfo.c on every run (CaresModel/Gen
 * success is only reported with at least one address, and only when the last answer was converted (or carried no
   address records, or was malformed while another answer had given addresses);
 * going on to the next candidate name happens only while no address is known;
+* an address already known is never discarded by a failing sibling sub-request (`address_known_succeeds`), a no-data answer
+  of an earlier candidate is remembered (`nodata_is_sticky`), and the final status is never invented (`finish_status_origin`);
 * on the domain the channel model exercises (no allocation failures; the conversion yields success or no-data) the
   generated chain IS the hand-written model's chain: `gaiOnCb` is `gaiCbPre` followed by the generated decision
   (`gaiOnCb_follows_generated`), so the end-to-end theorems of C13b / C12c about the model's getaddrinfo client speak
@@ -57,6 +59,35 @@ theorem nodata_count_step (status addinfo : Status) (nodes nomem single : Bool) 
   repeat' split
   all_goals simp_all
   all_goals omega
+
+/-- an address already obtained is never thrown away: whatever the sub-request's own status was (timeout, servfail, ... on
+    the other address family), once an address is known and nothing was lost to an allocation failure the request succeeds -/
+theorem address_known_succeeds (status addinfo : Status) (nodes_true : Bool) (single : Bool) (nodata : Nat)
+    (hn : nodes_true = true) (h1 : status ≠ .destruction) (h2 : status ≠ .cancelled)
+    (ha : addinfo = .ok ∨ addinfo = .nodata ∨ addinfo = .badresp) :
+    (final status addinfo nodes_true false single nodata).1 = .finish .ok := by
+  subst hn
+  unfold final
+  rcases ha with ha | ha | ha <;> subst ha <;> simp [h1, h2]
+
+/-- a no-data answer seen for an earlier candidate is remembered: once the counter is non-zero, running out of candidates
+    reports ARES_ENODATA, not the (less specific) status of the last candidate -/
+theorem nodata_is_sticky (status addinfo s : Status) (nodes nomem single : Bool) (nodata : Nat) (hpos : 0 < nodata)
+    (h : (final status addinfo nodes nomem single nodata).1 = .next s) : s = .nodata := by
+  have hne : nodata ≠ 0 := by omega
+  have hne1 : nodata + 1 ≠ 0 := by omega
+  unfold final at h
+  repeat' split at h
+  all_goals simp_all
+
+/-- the status a request ends with is never invented: it is the sub-request's status, the conversion's status, success, or
+    out-of-memory -/
+theorem finish_status_origin (status addinfo s : Status) (nodes nomem single : Bool) (nodata : Nat)
+    (h : (final status addinfo nodes nomem single nodata).1 = .finish s) :
+    s = status ∨ s = addinfo ∨ s = .ok ∨ s = .nomem := by
+  unfold final at h
+  repeat' split at h
+  all_goals simp_all
 
 /-- the hand-written channel model's completion chain (`gaiOnCb`, after the last sub-request of a candidate) -/
 def modelFinal (st addinfo : Status) (nodes single : Bool) (nodata : Nat) : Act × Nat :=
@@ -188,5 +219,7 @@ example : final .notfound .ok false false false 0 = (.next .notfound, 0) := by d
 example : final .ok .nodata false false false 0 = (.next .nodata, 1) := by decide
 example : (final .servfail .ok false false true 2).1 = .next .nodata := by decide
 example : (final .servfail .ok false false false 2).1 = .finish .servfail := by decide
+example : (final .timeout .ok true false false 0).1 = .finish .ok := by decide   -- address_known_succeeds: sibling timed out
+example : (final .notfound .ok false false false 1).1 = .next .nodata := by decide   -- nodata_is_sticky
 
 end Cares.C13c
